@@ -46,6 +46,7 @@ func init() {
 			"M11 copyOutSymlink writes no value derived from GetOutFilename(); M12 readers of ArrayType.Elem in post-processing also read Dim; M13 after processStructOuts the value passed in is neither returned nor stored as the element's record. " +
 			"M1 (round 8): strconv.Quote is not accepted as a JSON encoder. " +
 			"M14 every store to StructType.isFile in StructMember.compile is dominated by a comparison reading its current value. " +
+			"M15 every return of moveOutFile has passed a write into its buffer. " +
 			"NOT decided: file contents, which files exist, symlink arithmetic (relative paths), that the hand-assembled JSON is valid beyond these conditions, display output.",
 		Assumptions: append([]string{
 			"values of static type json.RawMessage hold JSON text (they come from json.Unmarshal into RawMessage-based containers or from encoders); a conversion of a string to json.RawMessage is reported",
@@ -442,6 +443,7 @@ func runC13(c *an.Ctx) {
 	ruleM12(s)
 	ruleM13(s)
 	ruleM14(s.c)
+	ruleM15(s.c)
 	ruleM6(c)
 }
 
